@@ -61,4 +61,11 @@ def eqNoCase (a b : Bytes) : Bool := lowerBytes a == lowerBytes b
 def strOfBytes (b : Bytes) : String := String.ofList (b.map (fun n => Char.ofNat n))
 def bytesOfString (s : String) : Bytes := s.toList.map (fun c => c.toNat)
 
+instance {ε α} [DecidableEq ε] [DecidableEq α] : DecidableEq (Except ε α) := fun a b =>
+  match a, b with
+  | .ok x, .ok y => if h : x = y then isTrue (by rw [h]) else isFalse (by intro e; injection e; contradiction)
+  | .error x, .error y => if h : x = y then isTrue (by rw [h]) else isFalse (by intro e; injection e; contradiction)
+  | .ok _, .error _ => isFalse (by intro e; cases e)
+  | .error _, .ok _ => isFalse (by intro e; cases e)
+
 end Confuse
